@@ -258,8 +258,8 @@ def limits(F, R):
         for bi, j, s in agg_sites(hb, r'^%s::handshake::HandshakeAck$' % ver):
             i = s['rv']['names'].index('keepalive')
             import c05
-            names = c05.origin_field_names(F, hb, s['rv']['fields'][i], re.compile(TRANSPARENT_CALLS.pattern[:-2] + r'|saturating_add|new)$'))
-            ok = 'keep_alive' in names
+            names = c05.origin_field_names(F, hb, s['rv']['fields'][i], re.compile(TRANSPARENT_CALLS.pattern[:-2] + r'|saturating_add|saturating_mul|checked_add|new|map_or|map|unwrap_or|min|max)$'))
+            ok = ok or 'keep_alive' in names
         R.ob('C19.limits', '%s|Handshake::ack keepalive <- CONNECT.keep_alive' % ver, ok, 'the default keep-alive does not depend on the client\'s keep_alive')
     b3 = F.one(HS['v3'])
     setter_from(F, R, b3, 'v3-server|inbound max size <- ack.max_packet_size', r'^v3::codec::codec::Codec::set_max_size$', ['max_packet_size'])
